@@ -31,16 +31,19 @@ RULE = (
     "declares @override, every corpus value the leaf accepts must serialise to something each ancestor parses; "
     "@override silences the rule. Pool and shapes also cover Annotated[..., Field(...)] constraints, x: T = None in the "
     "child, make_mandatory with several names, fields added by @add_const_fields / @ld under Extra.forbid, mutually "
-    "recursive siblings after a refusal; a refused plugin must stay refused (not handed out / listed by the group) for "
+    "recursive siblings after a refusal; overrides without a new annotation: @add_const_fields({x: v}) over every pool type, "
+    "a bare class-body assignment x = v over every pool type and over plain List/Set/Dict types, and x: T = Field(...) "
+    "with constraints / alias in parent and child (all ordered pairs of 10 forms); a refused plugin must stay refused (not handed out / listed by the group) for "
     "manual registration and for entry points. Thorough adds Hypothesis-generated depth-2 types. Non-trivial = accepted pair with "
     "child type != parent type, or refused pair for which the corpus holds a witness; distinct by (parent, child, shape)"
 )
 ASSUMPTIONS = ["completeness not asserted (a safe override being refused is allowed)",
-               "not asserted: date/time types; constraints carried in Annotated[..., Field(...)]; phantom subclasses whose "
-               "pattern does not narrow the parent's"]
+               "not asserted: date/time types; phantom subclasses whose pattern does not narrow the parent's; plain str/float "
+               "parents with Literal / phantom children (model-wide min_anystr_length / allow_inf_nan, see DESIGN 9.6)"]
 REQUIRED_CLASSES = {"all": ["accepted_narrowing", "refused_with_witness", "override_declared", "middle_unregistered",
                             "mandatory_then_optional", "extra_forbid_parent", "installed_ancestor_parse",
-                            "refusal_sticky_register", "refusal_sticky_ep", "mandatory_several_names"]}
+                            "refusal_sticky_register", "refusal_sticky_ep", "mandatory_several_names", "special_const", "special_bare",
+                            "special_assigned", "special_assigned_accepted"]}
 BUDGET_S = {"quick": 900, "thorough": 3 * 3600}
 NSHARD = 12
 
